@@ -284,6 +284,39 @@ class SInt(_Num):
         raise Unsupported("int() of symbolic int outside the interpreter")
 
 
+class SIntOrNone(SInt):
+    """An integer that stands for an Optional[int] of the program whose `None` a protocol models by the integer
+    `none_code` (a value no real value takes) -- e.g. the position component of a list walker's `(None, None)` answer
+    (contracts/C08_listbox.py NOPOS).  It is an SInt in every respect, except that the comparisons with None the program
+    makes on it (`x == None`, `x != None`, `x is None` -- interp.is_ --, and through them `(w, x) == (None, None)`) are
+    `x == none_code` instead of a constant False.  A modelling device of protocols, not a model of a Python builtin (nothing
+    to cross-check against CPython: CPython compares the real None); arithmetic on it yields plain SInt values."""
+
+    __slots__ = ("none_code",)
+
+    def __init__(self, e, none_code):
+        super().__init__(e)
+        self.none_code = none_code
+
+    def __eq__(self, o):
+        if o is None:
+            return mk_bool(self.e == self.none_code)
+        return super().__eq__(o)
+
+    def __ne__(self, o):
+        if o is None:
+            return mk_bool(self.e != self.none_code)
+        return super().__ne__(o)
+
+    __hash__ = None
+
+    def __neg__(self):
+        return mk_int(-self.e)
+
+    def __abs__(self):
+        return mk_int(z3.If(self.e >= 0, self.e, -self.e))
+
+
 class SReal(_Num):
     __slots__ = ()
 
